@@ -235,65 +235,7 @@ def check(ctx, rep):
         rep.add("R10b", f"{sc.qualname}: written on a miss", wrote, ctx.where(sc), "" if wrote else "generated entries are never cached",
                 key=f"R10b|{sc.qualname}|write", nontrivial=False)
 
-    # ------------------------------------------------------------------ R10c
-    def mutation(ev) -> bool:
-        if ev.kind == "assign" and isinstance(ev.target, str) and ev.target == "self.fileentries":
-            return True
-        if ev.kind == "call" and isinstance(ev.node.func, ast.Attribute) and ev.node.func.attr in MUTATORS \
-                and norm(ev.node.func.value) == "self.fileentries":
-            return True
-        return False
-
-    def is_save(ev) -> bool:
-        return ev.kind == "call" and ev.target.kind == "repo" and any(f.name == "savecache" for f in ev.target.funcs)
-
-    for C in family:
-        prep = prog.resolve_method(C, "prepare")
-        gdl = prog.resolve_method(C, "getdirlist")
-        if prep is None or gdl is None:
-            rep.fail("R10c", f"{C.qualname}", detail="prepare/getdirlist missing")
-            continue
-        inline = lambda fn, t, d: t.bound_cls is not None and fn.name not in ("loadcache", "savecache", "processLinkFile", "getLinkItem", "mergeentries")  # noqa: E731
-        w = Walker(prog, ctx.resolver, inline=inline, max_depth=5, merge_loops=True)
-        problems = set()
-        try:
-            ppaths = w.run(prep, C)
-            gpaths = Walker(prog, ctx.resolver, inline=inline, max_depth=5).run(gdl, C)
-        except Exception:
-            problems.add("could not enumerate prepare()/getdirlist() paths")
-            ppaths, gpaths = [], []
-        # mutations hidden in non-inlined helpers count at their call
-        def seq(p):
-            out = []
-            for e in p.events:
-                if mutation(e):
-                    out.append("M")
-                elif is_save(e):
-                    out.append("S")
-                elif e.kind == "call" and e.target.kind == "repo" and e.target.bound_cls is not None and \
-                        any("self.fileentries" in _mut_summary(prog, f, C) for f in e.target.funcs):
-                    out.append("M")
-            return out
-        generated = False
-        for pp in ppaths:
-            if pp.kind == "raise":
-                continue
-            sp = seq(pp)
-            if "M" in sp:
-                generated = True
-            for gp in gpaths:
-                if gp.kind == "raise":
-                    continue
-                s = sp + seq(gp)
-                if "M" in s:
-                    last_m = max(i for i, x in enumerate(s) if x == "M")
-                    if "S" not in s[last_m + 1:]:
-                        problems.add("a path generates or modifies the entry list and returns to the protocol without pickling it afterwards "
-                                     "(the cache would miss the merge/sort, or - if saved after rendering - contain entries the Gopher+ renderer has already rewritten)")
-        if not generated and not problems:
-            problems.add("prepare() never builds the entry list")
-        rep.add("R10c", f"{C.qualname}: entries pickled after the last mutation, before rendering", not problems, ctx.where(gdl),
-                "; ".join(sorted(problems)), key=f"R10c|{C.qualname}|" + ";".join(sorted(problems)))
+    save_order_obligations(ctx, rep, "R10c", family)
     hits = []
     for f in prog.all_functions():
         if f.module.name.startswith("pygopherd.handlers") or f.module.name == "pygopherd.gopherentry":
@@ -399,6 +341,80 @@ def check(ctx, rep):
                     bad.append(norm(e.node)[:50])
         rep.add("R10d", f"{pr.qualname}: no merge/sort on a cache hit", not bad, ctx.where(pr),
                 f"cached entries are modified again on a hit: {bad[0]}" if bad else "", key=f"R10d|{pr.qualname}|hit")
+
+
+def mutation(ev) -> bool:
+    if ev.kind == "assign" and isinstance(ev.target, str) and ev.target == "self.fileentries":
+        return True
+    if ev.kind == "call" and isinstance(ev.node.func, ast.Attribute) and ev.node.func.attr in MUTATORS \
+            and norm(ev.node.func.value) == "self.fileentries":
+        return True
+    return False
+
+def is_save(ev) -> bool:
+    return ev.kind == "call" and ev.target.kind == "repo" and any(f.name == "savecache" for f in ev.target.funcs)
+
+
+
+def save_order_obligations(ctx, rep, rule="R10c", family=None):
+    """Event order over prepare()+getdirlist() of every directory handler class: the entry list is saved after its last
+    mutation, and never before one (a request that stops after prepare(), or a concurrent one, would be served the unfinished list)."""
+    prog = ctx.prog
+    if family is None:
+        dirbase = ctx.cls("handlers.dir.DirHandler")
+        family = prog.subclasses(dirbase) if dirbase else []
+    for C in family:
+        prep = prog.resolve_method(C, "prepare")
+        gdl = prog.resolve_method(C, "getdirlist")
+        if prep is None or gdl is None:
+            rep.fail(rule, f"{C.qualname}", detail="prepare/getdirlist missing")
+            continue
+        inline = lambda fn, t, d: t.bound_cls is not None and fn.name not in ("loadcache", "savecache", "processLinkFile", "getLinkItem", "mergeentries")  # noqa: E731
+        w = Walker(prog, ctx.resolver, inline=inline, max_depth=5, merge_loops=True)
+        problems = set()
+        try:
+            ppaths = w.run(prep, C)
+            gpaths = Walker(prog, ctx.resolver, inline=inline, max_depth=5).run(gdl, C)
+        except Exception:
+            problems.add("could not enumerate prepare()/getdirlist() paths")
+            ppaths, gpaths = [], []
+        # mutations hidden in non-inlined helpers count at their call
+        def seq(p):
+            out = []
+            for e in p.events:
+                if mutation(e):
+                    out.append("M")
+                elif is_save(e):
+                    out.append("S")
+                elif e.kind == "call" and e.target.kind == "repo" and e.target.bound_cls is not None and \
+                        any("self.fileentries" in _mut_summary(prog, f, C) for f in e.target.funcs):
+                    out.append("M")
+            return out
+        generated = False
+        for pp in ppaths:
+            if pp.kind == "raise":
+                continue
+            sp = seq(pp)
+            if "M" in sp:
+                generated = True
+            for gp in gpaths:
+                if gp.kind == "raise":
+                    continue
+                s = sp + seq(gp)
+                if "M" in s:
+                    last_m = max(i for i, x in enumerate(s) if x == "M")
+                    first_s = min((i for i, x in enumerate(s) if x == "S"), default=None)
+                    if first_s is not None and first_s < last_m:
+                        problems.add("the entry list is written to the cache before it is final (it is merged/sorted/changed again afterwards): a request "
+                                     "that ends after prepare() - an HTTP HEAD - or one that reads the cache in between leaves the unfinished list "
+                                     "to be served for the cache lifetime")
+                    if "S" not in s[last_m + 1:]:
+                        problems.add("a path generates or modifies the entry list and returns to the protocol without pickling it afterwards "
+                                     "(the cache would miss the merge/sort, or - if saved after rendering - contain entries the Gopher+ renderer has already rewritten)")
+        if not generated and not problems:
+            problems.add("prepare() never builds the entry list")
+        rep.add(rule, f"{C.qualname}: entries pickled after the last mutation, before rendering", not problems, ctx.where(gdl),
+                "; ".join(sorted(problems)), key=f"{rule}|{C.qualname}|" + ";".join(sorted(problems)))
 
 
 def _mut_summary(prog, func, concrete, _seen=None):
